@@ -83,6 +83,7 @@ ENGINES = [
  {"name": "reach", "path": "harness/src/explore.rs", "serves_properties": ["C01","C02","C04","C06","C07","C13","C14"], "kind_free_text": "Engine A: explicit-state BFS whose transition function is the real code (state = clone of the real object + reference-model state); own BFS with parent pointers plus stateright 0.31 BFS as independent cross-check of state counts and verdicts"},
  {"name": "sweep", "path": "harness/src/props", "serves_properties": ["C01","C02","C03","C05","C06","C07","C08","C09","C10","C11","C12","C15","C16","C17","C18","C19"], "kind_free_text": "Engine B: parallel exhaustive enumeration of transition relations, bounded stream trees with prefix sharing, and pure-table sweeps"},
  {"name": "probe", "path": "probe_c20", "serves_properties": ["C20"], "kind_free_text": "Engine C: no_std const/static probe crate and runtime twin, built without hooks; rustc is the judge"},
+ {"name": "neutral", "path": "probe_neutral", "serves_properties": ["C01","C02","C03","C04","C05","C06","C07","C08","C09","C10","C11","C12","C13","C14","C15","C16","C17","C18","C19"], "kind_free_text": "hook-neutrality probe: one public-API program built against the tree without and with the verif-hooks feature; exhaustive output tables digested per group and compared between the two builds by every check (harness/src/props/neutral.rs), so that what is established on the hooks-on build transfers to the crate as shipped"},
  {"name": "tla", "path": "tla", "serves_properties": ["C01","C02","C04","C07"], "kind_free_text": "TLA+ cross-specification of the two prefix grammars and of the modifier record: TLC 1.8 explores each model completely and checks its invariants; harness/src/props/tlaconf.rs replays every edge of the dumped state graph on the real code for every concrete input of the edge's class (1536 + 768 + 190464 transitions) and compares the Rust reference models with the TLA+ models"},
 ]
 
